@@ -65,13 +65,22 @@ def run(ctx):
                               else "makes the running paths differ at %s" % rec.get("nextEditPathsDiffer")))
     for (target, through, top, what), rs in sorted(groups.items()):
         ex = rs[0]
+        origins = sorted({x["origin"] for x in rs})
         ctx.violation({"kind": "mutation", "target": target, "through": through, "top": top, "what": what},
                       "%s is not a deep copy below %s%s: %d mutation paths through the copy %s the original, e.g. %s %s: "
-                      "original read %s before and %s after (shared memory: %s)" % (
+                      "original read %s before and %s after (shared memory: %s) [%s configuration]" % (
                           target, top, (" (behind interface field %s)" % through) if through else "", len(rs),
                           "change" if what == "changed" else "share memory with", ex["op"], ex["path"],
-                          ex["readBefore"], ex["readAfter"], ex["shared"]))
-    summ = {x["target"]: x for x in recs if x["rec"] == "summary"}
+                          ex["readBefore"], ex["readAfter"], ex["shared"], "/".join(origins)))
+    if ctx.thorough:
+        # self-test: a clean record with one corrupted field must be rejected by TLC
+        clean = next(x for x in muts if x["origBefore"] == x["origAfter"] and not x["shared"])
+        vf.write_ndjson(d + "/C11_trace.ndjson", [clean, dict(clean, origAfter="corrupted"), dict(clean, shared=True)])
+        st = vf.tlc(ctx, "TraceConfStore", "TraceConfStore_c11.cfg", workers=1, timeout=300)
+        if sorted(b["l"] for b in st.tagged("BAD")) != [2, 3]:
+            raise vf.Infra("self-test: corrupted trace records were not rejected: %s" % st.tagged("BAD"))
+        ctx.set("selftest_corrupted_trace_rejected", True)
+    summ = {x["target"] + " of a " + x["origin"] + " configuration": x for x in recs if x["rec"] == "summary"}
     sh = [x for x in recs if x["rec"] == "shapes"][0]
     ctx.set("traces_validated_against_impl", len(muts) + len(rej))
     ctx.set("mutation_records", len(muts))
@@ -82,8 +91,8 @@ def run(ctx):
     ctx.set("spec_shapes_not_in_real_types", sh["specShapesNotInRealTypes"])
     for x in recs:
         if x["rec"] == "cloneequal" and not x["equal"]:
-            ctx.note("%s: the clone does not read the same as the original (statement is about independence; DRIFT): %s"
-                     % (x["target"], x["firstDifference"]))
+            ctx.note("%s (%s configuration): the clone does not read the same as the original (statement is about independence; DRIFT): %s"
+                     % (x["target"], x["origin"], x["firstDifference"]))
             ctx.add("drift_events", 1)
     ctx.sample({k: muts[len(muts) // 2][k] for k in ("target", "path", "op", "readBefore", "readAfter", "shared")})
     ctx.sample({k: rej[0][k] for k in ("edit", "name", "body", "rejected", "error", "diffAt")})
